@@ -92,6 +92,8 @@ var nestLeaves = []string{
 	"(thread-first (- n 1) (f))",
 	"(thread-last (- n 1) (f))",
 	"(g2 (- n 1))",
+	"(other:g3 (- n 1))",
+	"(funcall other:g3 (- n 1))",
 }
 
 var nestWraps = []string{
@@ -120,7 +122,8 @@ func VerifC02_ENest() {
 		desc += itoa(w) + " "
 		expr = strings.Replace(nestWraps[w], "%s", expr, 1)
 	}
-	shape := "(defun g2 (n) (f n)) (defun f (n) (height) (probe n) (if (= n 0) 'done " + expr + "))"
+	// g3 lives in ANOTHER package: a mutually tail-recursive loop may cross package boundaries
+	shape := "(in-package 'other) (export 'g3) (defun g3 (m) (user:f m)) (in-package 'user) (defun g2 (n) (f n)) (defun f (n) (height) (probe n) (if (= n 0) 'done " + expr + "))"
 	n := vParam("N", 3)
 	ps0, r0, env0 := runTro(shape, n, 0)
 	ps1, r1, env1 := runTro(shape, n, 1)
